@@ -119,7 +119,9 @@ def run_replay(data):
     try:
         if con.native is not None:
             nargs = con.native.__code__.co_varnames[:con.native.__code__.co_argcount]
-            result = con.native(**{k: v for k, v in inputs.items() if k in nargs})
+            # (a harness parameter the inputs do not name - e.g. the `x` of the idiom `def native(x): raise OutsideHarness()` on a
+            #  contract without such a parameter - is passed as None)
+            result = con.native(**{k: inputs.get(k) for k in nargs})
             if isinstance(result, dict) and result.get("__native__"):
                 extra = result
                 raised = result.get("raised")
